@@ -17,6 +17,8 @@ def run(rep, tier):
     f = ix.func(FN)
     fn = f.node
     c16_ord(rep, ix, f)
+    from .c19 import pairing
+    common.guarded(rep, "C08.2", pairing, rep, get_ord(rep), ix, "C08.2")     # the register wires are read from .regrefs: it must list every register of the expression
     c16_4(rep, ix, f)
     shape = common.guarded(rep, "C16.1", recognise, rep, ix, f)
     if shape is not None:
